@@ -41,6 +41,14 @@ ASSUMPTIONS = [
     "the number of remaining arguments, and ALLARGS is the list of the remaining arguments (only asserted for "
     "calls with plain positional arguments)",
     "two \\name\\ forms that share a backslash (\\a\\b\\) are not defined by the manual: not generated",
+    "a label private to an expansion never has the name of a global symbol or of a label of an enclosing expansion "
+    "(the manual does not say which one a reference placed before the private definition means; asl takes the outer "
+    "one in pass 1 and does not repeat the pass)",
+    "INTLABEL / __LABEL__ (fourth implicit parameter of the manual) is included although the property text does not "
+    "list it; a label produced through __LABEL__ is private to the expansion like every label of a body",
+    "source lines stay below 256 characters and never end in a backslash (continuation character)",
+    "the operator != is not used in generated conditions: asl rejects `if 1!=2` ('wrong number of operands') "
+    "although the manual lists != as alias of <> (belongs to C08/C12, reported there)",
     "EQU inside a body is not generated (the manual's DefVec example makes it global, the rule for labels local)",
     "IF / WHILE / REPT / IRPN / BINCLUDE operands are restricted to the model's expression language (decimal and "
     "hex integers, SET/EQU symbols, + - *, comparisons, && ||, parentheses, string comparison)",
@@ -64,7 +72,7 @@ ONLY = set(filter(None, os.environ.get("C11_ONLY", "").split(",")))
 
 
 def budget(tier):
-    return dict(examples=5000 if tier == "quick" else 40000, shards=16)
+    return dict(examples=4000 if tier == "quick" else 40000, shards=16)
 
 
 # =========================================================================================== generator
@@ -723,7 +731,7 @@ class Body:
         ctl = self.ctrl() if not force.get("noglob") else None
         glob = ctl is not None and "NO" not in ctl.upper()
         name = name or g.fresh(d.choice(["m", "mac", "M"]))
-        attr = g.c["hasattrs"] and d.bool(0.35)
+        attr = g.c["hasattrs"] and d.weighted([(1, True), (1, False)])
         uses_argc = d.bool(0.3)
         allargs_ints = all(p["role"] in ("int", "cint", "dig") for p in params) and d.bool(0.4)
         shift = d.bool(0.25) and nparams > 0
@@ -751,6 +759,12 @@ class Body:
             params.append(dict(name=dn, role="dir"))
             for _ in range(d.int(1, 2)):
                 body.insert(d.int(0, len(body)), g.stmt(g.spell(dn), self.int_expr(ctx["visible"])))
+        if attr:
+            # the attribute of the call replaces ATTRIBUTE (manual: move.ATTRIBUTE op,-(sp))
+            a = g.spell_any("ATTRIBUTE")
+            body.insert(d.int(0, len(body)), d.weighted([(3, g.stmt("dc." + a, self.int_expr(ctx["visible"]))),
+                                                           (2, g.sp() + "move." + a + g.sp() + "d0,d1"),
+                                                           (1, g.stmt(d.choice(g.c["byte"]), '"<' + a + '>"'))]))
         if allargs_ints and d.bool(0.7):
             body.insert(d.int(0, len(body)), g.stmt(d.choice(g.c["byte"]), g.spell_any("ALLARGS")))
             spec["allargs_data"] = True
@@ -817,7 +831,18 @@ def rec_scenario(g, b):
     ctx = dict(visible=[dict(name=n, role="cint")] + evis, macro=None, labels=True, exitm=False)
     pay = b.make(ctx, 1, 2)
     selfcall = g.stmt(g.spell(name), ",".join(["(%s-1)" % pn] + [g.spell(e) for e in extra]))
-    style = d.weighted([(2, "if"), (2, "exitm")])
+    style = d.weighted([(2, "if"), (2, "exitm"), (1, "mutual")])
+    if style == "mutual":
+        # two macros calling each other; the second one is defined after the first one's body names it
+        other = g.fresh("rd")
+        qn = g.param_names(1, [])[0]
+        lines = [name + g.sp() + "macro" + g.sp() + n, g.stmt("if", "%s>0" % pn), g.stmt(bd, pn),
+                 g.stmt(g.spell(other), "(%s-1)" % pn), g.stmt("endif"), b.endm(),
+                 other + g.sp() + "macro" + g.sp() + qn, g.stmt("if", "%s>0" % g.spell(qn)), g.stmt(bd, g.spell(qn) + "+100"),
+                 g.stmt(g.spell(name), "(%s-1)" % g.spell(qn)), g.stmt("endif"), b.endm()]
+        for _ in range(d.int(1, 2)):
+            lines.append(g.stmt(g.spell(d.choice([name, other])), str(d.int(0, 6))))
+        return lines
     lines = [name + g.sp() + "macro" + g.sp() + ",".join(plist)]
     if style == "if":
         lines += [g.stmt("if", "%s>0" % pn), g.stmt(bd, pn)] + pay + [selfcall, g.stmt("endif")]
